@@ -784,126 +784,381 @@ theorem copy_all_moves {w w' : World} {d s : Nat} (h : copySingle w d s .all tru
       rw [e, key_single, rowKey_tab_get, rowKey_conv hsame hbad, rowKey_total]
     · rw [amount_setStrm_same (by rw [getElem?_setStrm_other hds]; exact hs), amount_zeroed]
 
-/-! ### combinations the code rejects (mirrored; known findings) -/
-
-/-- `Stream.split_to` of a single-phase feed onto a multi-phase outlet of the same package with
-`energy_balance=False` is rejected (`s.mol[:] = values` hits the read-only phase sum) -/
-theorem split_single_feed_multi_outlet_rejected {w : World} {f a b : Nat} {sp : Split} {sf sa sb : Strm}
-    (hf : w.strms[f]? = some sf) (ha : w.strms[a]? = some sa) (hb : w.strms[b]? = some sb)
-    (hfs : sf.multi = false) (ham : sa.multi = true) (hpk : sa.pkg = sf.pkg) :
-    split w f a b sp = .error .rejected := by
-  unfold split
-  rw [get?_ok.mpr hf, get?_ok.mpr ha, get?_ok.mpr hb]
-  simp only [bind, Except.bind, hfs, Bool.false_and, Bool.false_eq_true, if_false]
-  unfold putOutlet
-  simp [ham, hpk]
-
-/-- `copy_flow(other, IDs, exclude=True)` when none of the IDs is a chemical of the source
-("exclude nothing") is rejected (`slice()` raises TypeError) -/
-theorem copy_exclude_nothing_rejected {w : World} {d s : Nat} {cs : List Nat} {rm : Bool} {sd ss : Strm}
-    (hd : w.strms[d]? = some sd) (hs : w.strms[s]? = some ss)
-    (hcs : ∀ c ∈ cs, c ∉ w.pkgOf ss) : copySingle w d s (.many cs) rm true = .error .rejected := by
-  unfold copySingle
-  rw [get?_ok.mpr hd, get?_ok.mpr hs]
-  have : cs.filterMap (pos (w.pkgOf ss)) = [] := by
-    apply List.filterMap_eq_nil_iff.mpr
-    intro c hc
-    exact pos_none_iff.mpr (hcs c hc)
-  simp only [bind, Except.bind, selection, this, List.isEmpty_nil, if_true]
-
-/-- `copy_flow(other, 'ID')` with a string ID between different packages is rejected
-(the `int` index is iterated: TypeError) -/
-theorem copy_str_other_package_rejected {w : World} {d s c k : Nat} {rm : Bool} {sd ss : Strm}
-    (hd : w.strms[d]? = some sd) (hs : w.strms[s]? = some ss) (hpk : sd.pkg ≠ ss.pkg)
-    (hc : pos (w.pkgOf ss) c = some k) : copySingle w d s (.one c) rm false = .error .rejected := by
-  unfold copySingle
-  rw [get?_ok.mpr hd, get?_ok.mpr hs]
-  have : (sd.pkg == ss.pkg) = false := by simpa using hpk
-  simp only [bind, Except.bind, selection, hc, this, Bool.false_eq_true, if_false]
 
 /-! ### `MultiStream.copy_flow` (multi-phase destination) -/
 
-theorem colsum_zipRowsFrom {k : Nat} (f : Nat → Row → Row → Row) (g : Row → Rat)
-    (hf : ∀ i d s, (f i d s).get k = g s) :
-    ∀ (i : Nat) (ds : PhRows) (ss : List Row), ds.length = ss.length →
-      colsum (zipRowsFrom f i ds ss) k = rsum (ss.map g) := by
-  intro i ds
-  induction ds generalizing i with
+theorem get_putCols {n k : Nat} (hk : k < n) (C : Cols) (dst src : Row) :
+    (putCols n C dst src).get k = if C.has k then src.get k else dst.get k := by
+  unfold putCols; rw [get_tab_lt hk]
+
+theorem get_zeroCols {n k : Nat} (hk : k < n) (C : Cols) (r : Row) :
+    (zeroCols n C r).get k = if C.has k then 0 else r.get k := by
+  unfold zeroCols; rw [get_tab_lt hk]
+
+theorem get_keepCols {n k : Nat} (hk : k < n) (C : Cols) (r : Row) :
+    (keepCols n C r).get k = if C.has k then r.get k else 0 := by
+  unfold keepCols; rw [get_tab_lt hk]
+
+/-- one phase, destination row empty at `k`: what leaves the source row arrives in the destination row -/
+theorem copyStep_conserves {n k : Nat} (hk : k < n) (C : Cols) (R : Option Char) (ex : Bool) (p : Char)
+    (d s : Row) (hd : d.get k = 0) :
+    (copyStep n C R true ex p d s).1.get k + (copyStep n C R true ex p d s).2.get k = s.get k := by
+  unfold copyStep
+  cases ex <;> cases hsel : selK R p <;> cases hC : C.has k <;>
+    simp [hsel, get_putCols hk, get_zeroCols hk, get_keepCols hk, get_tab_lt hk, get_vzero, hC, hd]
+
+/-- one phase of the whole-stream cut and paste -/
+theorem copyStep_all {n k : Nat} (hk : k < n) (p : Char) (d s : Row) :
+    (copyStep n .all none true false p d s).1.get k = s.get k ∧
+    (copyStep n .all none true false p d s).2.get k = 0 := by
+  unfold copyStep
+  simp [selK, get_putCols hk, get_zeroCols hk, Cols.has]
+
+theorem colsum_pairRows_conserves {k : Nat} (step : Char → Row → Row → Row × Row)
+    (hstep : ∀ p d s, d.get k = 0 → (step p d s).1.get k + (step p d s).2.get k = s.get k) :
+    ∀ (ds ss : PhRows), ds.length = ss.length → (∀ pr ∈ ds, pr.2.get k = 0) →
+      colsum (pairRows step ds ss).1 k + colsum (pairRows step ds ss).2 k = colsum ss k := by
+  intro ds
+  induction ds with
+  | nil => intro ss h _; cases ss with
+    | nil => simp [pairRows]
+    | cons _ _ => simp at h
+  | cons x ds ih =>
+    obtain ⟨p, d⟩ := x
+    intro ss h hz
+    cases ss with
+    | nil => simp at h
+    | cons y ss =>
+      obtain ⟨q, s⟩ := y
+      have hl : ds.length = ss.length := by simpa using h
+      have := ih ss hl (fun pr hpr => hz pr (by simp [hpr]))
+      have h0 := hstep p d s (hz (p, d) (by simp))
+      simp only [pairRows, colsum_cons]
+      linarith
+
+theorem colsum_pairRows_all {k : Nat} (step : Char → Row → Row → Row × Row)
+    (hstep : ∀ p d s, (step p d s).1.get k = s.get k ∧ (step p d s).2.get k = 0) :
+    ∀ (ds ss : PhRows), ds.length = ss.length →
+      colsum (pairRows step ds ss).1 k = colsum ss k ∧ colsum (pairRows step ds ss).2 k = 0 := by
+  intro ds
+  induction ds with
   | nil => intro ss h; cases ss with
-    | nil => simp [zipRowsFrom]
+    | nil => simp [pairRows]
     | cons _ _ => simp at h
   | cons x ds ih =>
     obtain ⟨p, d⟩ := x
     intro ss h
     cases ss with
     | nil => simp at h
-    | cons s ss =>
+    | cons y ss =>
+      obtain ⟨q, s⟩ := y
       have hl : ds.length = ss.length := by simpa using h
-      simp [zipRowsFrom, hf, ih (i + 1) ss hl]
+      obtain ⟨i1, i2⟩ := ih ss hl
+      obtain ⟨h1, h2⟩ := hstep p d s
+      simp only [pairRows, colsum_cons, h1, h2, i1, i2]
+      exact ⟨trivial, by ring⟩
 
-theorem get_putCols_all {n k : Nat} (hk : k < n) (dst src : Row) : (putCols n .all dst src).get k = src.get k := by
-  unfold putCols; rw [get_tab_lt hk]; simp [Cols.has]
+/-- the row of phase `q` replaced, all rows empty at `k` -/
+theorem colsum_modAt {k : Nat} (q : Char) (f : Row → Row) (v : Rat) {l : PhRows}
+    (hq : hasPh l q = true) (hz : ∀ pr ∈ l, pr.2.get k = 0) (hf : ∀ r, r.get k = 0 → (f r).get k = v) :
+    colsum (modAt q f l) k = v := by
+  induction l with
+  | nil => simp [hasPh] at hq
+  | cons x l ih =>
+    obtain ⟨p, r⟩ := x
+    unfold modAt
+    have hrest : colsum l k = 0 := by
+      unfold colsum; apply rsum_map_zero; intro pr hpr; exact hz pr (by simp [hpr])
+    by_cases hp : (p == q) = true
+    · simp [hp, hf r (hz (p, r) (by simp)), hrest]
+    · have hq' : hasPh l q = true := by
+        rw [hasPh_cons] at hq; simpa [hp] using hq
+      simp [hp, ih hq' (fun pr hpr => hz pr (by simp [hpr])), hz (p, r) (by simp)]
 
-theorem get_zeroCols_all {n k : Nat} (hk : k < n) (r : Row) : (zeroCols n .all r).get k = 0 := by
-  unfold zeroCols; rw [get_tab_lt hk]; simp [Cols.has]
+theorem get_of_all_zero {l : PhRows} (h : l.all (·.2.isZero) = true) (k : Nat) : ∀ pr ∈ l, pr.2.get k = 0 :=
+  fun pr hpr => get_of_isZero (List.all_eq_true.mp h pr hpr) k
 
-/-- **Cut and paste between multi-phase streams with as many phases** (`IDs = ...`, `phase = ...`,
-`remove=True`): every chemical is moved.  (Rows are paired by position; with *more* source phases than
-destination phases material is lost, see `copy_multi_counterexample`.) -/
-theorem copy_multi_all_partial {w w' : World} {d s : Nat} {sd ss : Strm}
-    (h : copyMulti w d s none .all true false = .ok w') (hds : d ≠ s)
-    (hd : w.strms[d]? = some sd) (hs : w.strms[s]? = some ss)
-    (hm : ss.multi = true) (hlen : sd.ph.length = ss.ph.length) (c : Nat) :
-    w'.amount d c = w.amount s c ∧ w'.amount s c = 0 := by
+theorem length_of_keys_eq {a b : PhRows} (h : (a.map (·.1) != b.map (·.1)) = false) : a.length = b.length := by
+  have : a.map (·.1) = b.map (·.1) := by simpa using h
+  simpa using congrArg List.length this
+
+/-- `copyRows` onto an empty destination: destination plus source afterwards hold what the source held -/
+theorem copyRows_conserves {n k : Nat} (hk : k < n) {C : Cols} {R : Option Char} {ex : Bool} {d s : Strm}
+    {r : PhRows × Option PhRows} (h : copyRows n C R true ex d s = .ok r) (hd : d.isEmpty = true) :
+    colsum r.1 k + colsum (r.2.getD s.ph) k = (s.total n).get k := by
+  have hz := get_of_all_zero (l := d.ph) hd k
+  rw [get_total hk]
+  unfold copyRows at h
+  split at h
+  · split at h
+    · cases h
+    · rename_i hph
+      simp only [Bool.not_eq_true] at hph
+      cases h
+      simp only [if_true, Option.getD_some]
+      exact colsum_pairRows_conserves _ (fun p d s hd => copyStep_conserves hk C R ex p d s hd) _ _
+        (length_of_keys_eq hph) hz
+  · rename_i hsm
+    simp only [] at h
+    split at h
+    · cases h
+    · rename_i q hq
+      have hqd := resolve_hasPh hq
+      have htot := get_total hk s
+      split at h
+      · -- exclude
+        cases h
+        simp only [if_true, Option.getD_some, colsum_cons, colsum_nil]
+        rw [colsum_modAt q _ (if (selK R q && C.has k) = true then 0 else (s.total n).get k) hqd hz]
+        · cases hsel : selK R q <;> cases hC : C.has k <;>
+            simp [hsel, hC, get_keepCols hk, get_vzero, htot]
+        · intro r0 hr0
+          cases hsel : selK R q <;> cases hC : C.has k <;>
+            simp [hsel, hC, get_putCols hk, get_tab_lt hk, hr0]
+      · split at h
+        · rename_i hhit
+          cases h
+          have hz0 : ∀ pr ∈ d.ph.map (fun pr => (pr.1, vzero n)), pr.2.get k = 0 := by
+            intro pr hpr
+            obtain ⟨x, _, rfl⟩ := List.mem_map.mp hpr
+            exact get_vzero n k
+          have hq0 : hasPh (d.ph.map (fun pr => (pr.1, vzero n))) q = true := by
+            rw [hasPh_map_snd]; exact hqd
+          simp only [if_true, Option.getD_some, colsum_cons, colsum_nil]
+          rw [colsum_modAt q _ (if C.has k = true then (s.total n).get k else 0) hq0 hz0]
+          · cases hC : C.has k <;> simp [hC, get_zeroCols hk, htot]
+          · intro r0 _
+            cases hC : C.has k <;> simp [hC, get_putCols hk, get_vzero]
+        · cases h
+          simp only [Option.getD_none, colsum_map_zero]; ring
+
+/-- whole-stream cut and paste through `copyRows` -/
+theorem copyRows_all {n k : Nat} (hk : k < n) {d s : Strm} {r : PhRows × Option PhRows}
+    (h : copyRows n .all none true false d s = .ok r) :
+    colsum r.1 k = (s.total n).get k ∧ ∃ rs, r.2 = some rs ∧ colsum rs k = 0 := by
+  rw [get_total hk]
+  unfold copyRows at h
+  split at h
+  · split at h
+    · cases h
+    · rename_i hph
+      simp only [Bool.not_eq_true] at hph
+      cases h
+      obtain ⟨h1, h2⟩ := colsum_pairRows_all _ (fun p d s => copyStep_all hk p d s) d.ph s.ph (length_of_keys_eq hph)
+      exact ⟨h1, _, rfl, h2⟩
+  · simp only [] at h
+    split at h
+    · cases h
+    · rename_i q hq
+      have hqd := resolve_hasPh hq
+      simp only [selK, Bool.false_eq_true, if_false, if_true] at h
+      cases h
+      have hz0 : ∀ pr ∈ d.ph.map (fun pr => (pr.1, vzero n)), pr.2.get k = 0 := by
+        intro pr hpr
+        obtain ⟨x, _, rfl⟩ := List.mem_map.mp hpr
+        exact get_vzero n k
+      have hq0 : hasPh (d.ph.map (fun pr => (pr.1, vzero n))) q = true := by
+        rw [hasPh_map_snd]; exact hqd
+      refine ⟨?_, _, rfl, ?_⟩
+      · rw [colsum_modAt q _ ((s.total n).get k) hq0 hz0]
+        · exact get_total hk s
+        · intro r0 _; simp [get_putCols hk, Cols.has]
+      · simp [get_zeroCols hk, Cols.has]
+
+/-- from the guard of `MultiStream.copy_flow`: both streams read their rows in the same coordinates -/
+theorem pkgOf_of_guard {w : World} {d s : Strm} (h : ¬ ((d.pkg != s.pkg && w.pkgOf d != w.pkgOf s) = true)) :
+    w.pkgOf d = w.pkgOf s := by
+  simp only [Bool.and_eq_true, bne_iff_ne, ne_eq, not_and, Decidable.not_not] at h
+  by_cases hp : d.pkg = s.pkg
+  · exact pkgOf_eq_of_pkg hp
+  · exact h hp
+
+theorem copyFinish_amounts {w w' : World} {d s : Nat} {sd ss : Strm} {r : PhRows × Option PhRows}
+    (h : copyFinish w d s sd r = .ok w') (hds : d ≠ s) (hd : w.strms[d]? = some sd) (hs : w.strms[s]? = some ss)
+    (c : Nat) :
+    w'.amount d c = key (w.pkgOf sd) r.1 c ∧ w'.amount s c = key (w.pkgOf ss) (r.2.getD ss.ph) c := by
+  unfold copyFinish at h
+  simp only [] at h
+  have hs1 : (w.setStrm d { sd with ph := r.1 }).strms[s]? = some ss := by
+    rw [getElem?_setStrm_other hds]; exact hs
+  have hd1 : (w.setStrm d { sd with ph := r.1 }).amount d c = key (w.pkgOf sd) r.1 c := by
+    rw [amount_setStrm_same hd, amount_eq_key]; rfl
+  split at h
+  · rename_i hnone
+    cases h
+    rw [hnone]
+    exact ⟨hd1, by rw [amount_of_get hs1, amount_eq_key]; rfl⟩
+  · rename_i rs hsome
+    rw [get?_ok.mpr hs1] at h
+    simp only [bind, Except.bind] at h
+    cases h
+    rw [hsome]
+    refine ⟨by rw [amount_setStrm_other (Ne.symm hds)]; exact hd1, ?_⟩
+    rw [amount_setStrm_same hs1, amount_eq_key]; rfl
+
+/-- **Copy with removal onto an empty multi-phase destination conserves every chemical**, for every
+form of the phase / IDs / exclude arguments and for single- and multi-phase sources -/
+theorem copy_multi_conserves {w w' : World} {d s : Nat} {phase : Option Char} {ids : IDs} {ex : Bool}
+    {sd ss : Strm} (h : copyMulti w d s phase ids true ex = .ok w') (hds : d ≠ s)
+    (hd : w.strms[d]? = some sd) (hs : w.strms[s]? = some ss) (he : sd.isEmpty = true) (c : Nat) :
+    w'.amount d c + w'.amount s c = w.amount s c := by
   unfold copyMulti at h
   rw [get?_ok.mpr hd, get?_ok.mpr hs] at h
   simp only [bind, Except.bind] at h
   split at h
   · cases h
   · rename_i hg
-    have hPQ : w.pkgOf sd = w.pkgOf ss := by
-      simp only [Bool.and_eq_true, bne_iff_ne, ne_eq, not_and, Decidable.not_not] at hg
-      by_cases hp : sd.pkg = ss.pkg
-      · exact pkgOf_eq_of_pkg hp
-      · exact hg hp
-    simp only [hm, if_true, Bool.false_eq_true, if_false, Bool.true_and] at h
-    have hget : (w.setStrm d { sd with ph := zipRowsFrom (fun i cur sr => if selRow none i = true then
-        putCols (w.pkgOf sd).length Cols.all cur sr else cur) 0 sd.ph ss.rows }).get? s = .ok ss := by
-      apply get?_ok.mpr
-      rw [getElem?_setStrm_other hds]; exact hs
-    rw [hget] at h
-    simp only [] at h
-    cases h
-    rw [amount_of_get hs]
-    have hrl : sd.ph.length = ss.rows.length := by simpa [Strm.rows] using hlen
-    constructor
-    · rw [amount_setStrm_other (Ne.symm hds), amount_setStrm_same hd, amount_eq, amount_eq]
-      have e : w.pkgOf { sd with ph := zipRowsFrom (fun i cur sr => if selRow none i = true then
-        putCols (w.pkgOf sd).length Cols.all cur sr else cur) 0 sd.ph ss.rows } = w.pkgOf sd := rfl
-      rw [e, ← hPQ]
+    have hPQ := pkgOf_of_guard hg
+    split at h
+    · cases h
+    · rename_i C _
+      split at h
+      · cases h
+      · rename_i R _
+        split at h
+        · cases h
+        · rename_i r hr
+          obtain ⟨h1, h2⟩ := copyFinish_amounts h hds hd hs c
+          rw [h1, h2, amount_of_get hs, amount_eq_key, ← hPQ]
+          unfold key
+          cases hP : pos (w.pkgOf sd) c with
+          | none => simp
+          | some k =>
+            simp only []
+            have := copyRows_conserves (pos_lt hP) hr he
+            rw [this, get_total (pos_lt hP)]
+
+/-- **Cut and paste onto a multi-phase destination** (`phase = ...`, `IDs = ...`, `remove=True`): every
+chemical is moved, whatever the destination held -/
+theorem copy_multi_all_moves {w w' : World} {d s : Nat} {sd ss : Strm}
+    (h : copyMulti w d s none .all true false = .ok w') (hds : d ≠ s)
+    (hd : w.strms[d]? = some sd) (hs : w.strms[s]? = some ss) (c : Nat) :
+    w'.amount d c = w.amount s c ∧ w'.amount s c = 0 := by
+  unfold copyMulti at h
+  rw [get?_ok.mpr hd, get?_ok.mpr hs] at h
+  simp only [bind, Except.bind, colsOf, phaseOf] at h
+  split at h
+  · cases h
+  · rename_i hg
+    have hPQ := pkgOf_of_guard hg
+    split at h
+    · cases h
+    · rename_i r hr
+      obtain ⟨h1, h2⟩ := copyFinish_amounts h hds hd hs c
+      rw [h1, h2, amount_of_get hs, amount_eq_key, ← hPQ]
+      unfold key
       cases hP : pos (w.pkgOf sd) c with
-      | none => rfl
+      | none => simp
       | some k =>
         simp only []
-        rw [colsum_zipRowsFrom _ (fun r => r.get k) _ 0 sd.ph ss.rows hrl]
-        · unfold colsum Strm.rows; rw [List.map_map]; rfl
-        · intro i dd sr
-          simp only [selRow, if_true]
-          exact get_putCols_all (pos_lt hP) dd sr
-    · rw [amount_setStrm_same (by rw [getElem?_setStrm_other hds]; exact hs), amount_eq]
-      have e : ∀ ph, w.pkgOf { pkg := ss.pkg, multi := ss.multi, ph := ph } = w.pkgOf ss := fun _ => rfl
-      simp only [pkgOf_setStrm]
-      rw [e]
-      cases hQ : pos (w.pkgOf ss) c with
-      | none => rfl
-      | some k =>
-        simp only []
-        have hk : k < (w.pkgOf sd).length := by rw [hPQ]; exact pos_lt hQ
-        rw [colsum_zipRowsFrom _ (fun r => r.get k) (fun _ _ _ => rfl) 0 ss.ph _ (by simp [Strm.rows])]
-        apply rsum_map_zero
-        intro r hr
-        obtain ⟨⟨r0, i⟩, _, rfl⟩ := List.mem_map.mp hr
-        simp only [selRow, if_true]
-        exact get_zeroCols_all hk r0
+        obtain ⟨a1, rs, hrs, a2⟩ := copyRows_all (pos_lt hP) hr
+        rw [a1, get_total (pos_lt hP), hrs]
+        exact ⟨rfl, a2⟩
+
+theorem colsum_pairRows_pointwise {k : Nat} (step : Char → Row → Row → Row × Row) (b : Bool)
+    (hstep : ∀ p d s, d.get k = 0 → (step p d s).1.get k = (if b then s.get k else 0) ∧
+      (step p d s).2.get k = (if b then 0 else s.get k)) :
+    ∀ (ds ss : PhRows), ds.length = ss.length → (∀ pr ∈ ds, pr.2.get k = 0) →
+      colsum (pairRows step ds ss).1 k = (if b then colsum ss k else 0) ∧
+      colsum (pairRows step ds ss).2 k = (if b then 0 else colsum ss k) := by
+  intro ds
+  induction ds with
+  | nil => intro ss h _; cases ss with
+    | nil => cases b <;> simp [pairRows]
+    | cons _ _ => simp at h
+  | cons x ds ih =>
+    obtain ⟨p, d⟩ := x
+    intro ss h hz
+    cases ss with
+    | nil => simp at h
+    | cons y ss =>
+      obtain ⟨q, s⟩ := y
+      have hl : ds.length = ss.length := by simpa using h
+      obtain ⟨i1, i2⟩ := ih ss hl (fun pr hpr => hz pr (by simp [hpr]))
+      obtain ⟨h1, h2⟩ := hstep p d s (hz (p, d) (by simp))
+      simp only [pairRows, colsum_cons, h1, h2, i1, i2]
+      cases b <;> simp
+
+/-- all phases selected (`phase = ...`), destination empty: column `k` is moved exactly when
+`C.has k != exclude` -/
+theorem copyRows_moves {n k : Nat} (hk : k < n) {C : Cols} {ex : Bool} {d s : Strm}
+    {r : PhRows × Option PhRows} (h : copyRows n C none true ex d s = .ok r) (hd : d.isEmpty = true) :
+    colsum r.1 k = (if (C.has k != ex) then (s.total n).get k else 0) ∧
+    colsum (r.2.getD s.ph) k = (if (C.has k != ex) then 0 else (s.total n).get k) := by
+  have hz := get_of_all_zero (l := d.ph) hd k
+  rw [get_total hk]
+  unfold copyRows at h
+  split at h
+  · split at h
+    · cases h
+    · rename_i hph
+      simp only [Bool.not_eq_true] at hph
+      cases h
+      simp only [if_true, Option.getD_some]
+      apply colsum_pairRows_pointwise _ (C.has k != ex) _ _ _ (length_of_keys_eq hph) hz
+      intro p d0 s0 hd0
+      unfold copyStep
+      cases ex <;> cases hC : C.has k <;>
+        simp [selK, get_putCols hk, get_zeroCols hk, get_keepCols hk, get_tab_lt hk, hC, hd0]
+  · simp only [] at h
+    split at h
+    · cases h
+    · rename_i q hq
+      have hqd := resolve_hasPh hq
+      have htot := get_total hk s
+      simp only [selK, if_true] at h
+      split at h
+      · rename_i hex
+        cases h
+        simp only [if_true, Option.getD_some, colsum_cons, colsum_nil]
+        rw [colsum_modAt q _ (if C.has k = true then 0 else (s.total n).get k) hqd hz]
+        · cases hC : C.has k <;> simp [hC, hex, get_keepCols hk, htot]
+        · intro r0 hr0
+          cases hC : C.has k <;> simp [hC, get_putCols hk, get_tab_lt hk, hr0]
+      · rename_i hex
+        simp only [Bool.not_eq_true] at hex
+        cases h
+        have hz0 : ∀ pr ∈ d.ph.map (fun pr => (pr.1, vzero n)), pr.2.get k = 0 := by
+          intro pr hpr
+          obtain ⟨x, _, rfl⟩ := List.mem_map.mp hpr
+          exact get_vzero n k
+        have hq0 : hasPh (d.ph.map (fun pr => (pr.1, vzero n))) q = true := by
+          rw [hasPh_map_snd]; exact hqd
+        simp only [if_true, Option.getD_some, colsum_cons, colsum_nil]
+        rw [colsum_modAt q _ (if C.has k = true then (s.total n).get k else 0) hq0 hz0]
+        · cases hC : C.has k <;> simp [hC, hex, get_zeroCols hk, htot]
+        · intro r0 _
+          cases hC : C.has k <;> simp [hC, get_putCols hk, get_vzero]
+
+/-- **Copy with removal onto an empty multi-phase destination, all phases** (`phase = ...`): every chemical
+is either moved entirely or stays entirely in the source -/
+theorem copy_multi_remove_moves {w w' : World} {d s : Nat} {ids : IDs} {ex : Bool}
+    {sd ss : Strm} (h : copyMulti w d s none ids true ex = .ok w') (hds : d ≠ s)
+    (hd : w.strms[d]? = some sd) (hs : w.strms[s]? = some ss) (he : sd.isEmpty = true) (c : Nat) :
+    (w'.amount d c = w.amount s c ∧ w'.amount s c = 0) ∨
+    (w'.amount d c = 0 ∧ w'.amount s c = w.amount s c) := by
+  unfold copyMulti at h
+  rw [get?_ok.mpr hd, get?_ok.mpr hs] at h
+  simp only [bind, Except.bind, phaseOf] at h
+  split at h
+  · cases h
+  · rename_i hg
+    have hPQ := pkgOf_of_guard hg
+    split at h
+    · cases h
+    · rename_i C _
+      split at h
+      · cases h
+      · rename_i r hr
+        obtain ⟨h1, h2⟩ := copyFinish_amounts h hds hd hs c
+        rw [h1, h2, amount_of_get hs, amount_eq_key, ← hPQ]
+        unfold key
+        cases hP : pos (w.pkgOf sd) c with
+        | none => left; simp
+        | some k =>
+          simp only []
+          obtain ⟨a1, a2⟩ := copyRows_moves (pos_lt hP) hr he
+          rw [a1, a2, get_total (pos_lt hP)]
+          cases (C.has k != ex) <;> simp
 
 end ThermoVerif.FlowOps
